@@ -15,7 +15,8 @@ TECHNIQUE = "mode-specialised statement CFG of balance_stoichiometry (underdeter
 CLAIM = ("Decides, per mode of the under-determination switch: a raise-guard on negative coefficients, on zero coefficients, on a non-zero "
          "residual A*sol (ILP mode), on free symbols (mode False) lies on every path between the last definition of the solution vector and "
          "the final return; the vector is divided by the gcd of itself after its last external definition and made int in ILP mode; matrix "
-         "columns and coefficient lookup share one key list; the duplicate search cannot fall through; the ILP is x>=1 integer, min sum, A x = 0.")
+         "columns and coefficient lookup share one key list; the duplicate search cannot fall through; the ILP is x>=1 integer, min sum, A x = 0."
+         ' Every redefinition of the solution vector is a whole-vector rescaling / re-parametrisation (null space preserved); switch rebinding; defaults; recursion keeps sides (R10). Shared rule A1: no swapped same-named arguments at resolved in-package call sites.')
 DOES_NOT_DECIDE = ("that sympy's null space / CBC are right, minimality of the coefficient sum, behaviour with fractional compositions, whether the "
                    "parameter elimination of mode True reaches the minimal form (depends on sympy's algebra; only that every step keeps the vector in the null space)")
 ASSUMPTIONS = ["sympy linsolve/gcd/nsimplify and PuLP/CBC behave as documented", "sympy `.is_negative` is True exactly for numerically negative entries"]
